@@ -4,6 +4,7 @@ import (
 	"fmt"
 	"math/rand"
 	"runtime"
+	"runtime/debug"
 	"sort"
 	"sync"
 	"sync/atomic"
@@ -41,6 +42,10 @@ type scanRec struct {
 }
 
 func c15Run(c *rt.C) {
+	if c.Index < 4 {
+		c15DirectedRefresh(c, []string{"pageguard", "poison"}[c.Index%2])
+		return
+	}
 	r := c.Rng
 	mem := memModes()[c.Index%3]
 	e := newSLEnv(mem)
@@ -347,7 +352,7 @@ func init() {
 	rt.Register(&rt.Prop{
 		ID: "C15", Level: "exploration",
 		Technique: "runtime monitoring: scans with logical start/end and per-observation stamps judged against stable items and per-key single-owner churn logs (conservative interval reasoning)",
-		Rule: "each case: 5-60 stable items with 1-5 churn keys between neighbours (so the node under the iterator, its predecessor and successor are constantly inserted and deleted), 1-8 mutators (one owner per churn key) and 1-8 scanners running 6 scans each from SeekFirst or Seek(x), refresh interval ∈ {none,1,2,3,7,50}, a quarter with Pause/Resume; Go-managed, poison and pageguard memory; perturbation at the skiplist hook points. Judged: never backwards; equal neighbours only with a delete+re-insert overlapping the gap; every returned churn key possibly present during the scan; every stable or certainly-present item ≥ the start returned (stable ones exactly once); Seek lands ≥ x with no stable item skipped. " +
+		Rule: "cases 0-3: directed, hook-free — an iterator with refresh interval 1 (user-managed memory) is parked inside its own comparator while Refresh re-seeks the current item; that item is deleted and flushed meanwhile; the iterator must not touch released memory, go backwards or lose a stable item. Other cases: 5-60 stable items with 1-5 churn keys between neighbours (so the node under the iterator, its predecessor and successor are constantly inserted and deleted), 1-8 mutators (one owner per churn key) and 1-8 scanners running 6 scans each from SeekFirst or Seek(x), refresh interval ∈ {none,1,2,3,7,50}, a quarter with Pause/Resume; Go-managed, poison and pageguard memory; perturbation at the skiplist hook points. Judged: never backwards; equal neighbours only with a delete+re-insert overlapping the gap; every returned churn key possibly present during the scan; every stable or certainly-present item ≥ the start returned (stable ones exactly once); Seek lands ≥ x with no stable item skipped. " +
 			"evaluations = scans judged; distinct = (seek?, refresh interval, paused, took the read-conflict path?, memory) tuples",
 		Assumptions: []string{"with user-managed memory the harness re-seeks its last value after Pause/Resume (Pause drops the accessor token, so the current node may have been reclaimed); with Go-managed memory it simply continues with Next", "each churn key has a single owner, so its log is a sequence of completed operations"},
 		Cases: func(t string) int {
@@ -361,4 +366,102 @@ func init() {
 		MinSigs: 12,
 		Run:     c15Run,
 	})
+}
+
+// c15DirectedRefresh (user-managed memory, hook-free: the iterator's comparator is user-supplied):
+// an iterator with refresh interval 1 steps onto an item and refreshes; while its Refresh re-seeks
+// that item (parked inside the comparator at the final comparison), another goroutine deletes the
+// item and flushes its node; the iterator resumes, finishes the refresh and continues. It must never
+// touch released memory, must not go backwards, and must deliver the remaining stable items.
+func c15DirectedRefresh(c *rt.C, mem string) {
+	e := newSLEnv(mem)
+	s := skiplist.NewWithConfig(e.cfg)
+	buf := s.MakeBuf()
+	vals := []int{10, 20, 30, 40, 50}
+	for _, v := range vals {
+		s.Insert3(e.intItem(v), skiplist.CompareInt, nil, buf, 0, false, &s.Stats)
+	}
+	var armed int32
+	parked := make(chan struct{})
+	resume := make(chan struct{})
+	var once sync.Once
+	cmp := func(a, b unsafe.Pointer) int {
+		if atomic.LoadInt32(&armed) == 1 && a == b { // the re-seek of Refresh comparing the current item with itself
+			once.Do(func() {
+				close(parked)
+				<-resume
+			})
+		}
+		return skiplist.CompareInt(a, b)
+	}
+	type out struct {
+		seq   []int
+		fault interface{}
+	}
+	done := make(chan out, 1)
+	go func() {
+		debug.SetPanicOnFault(true)
+		var o out
+		defer func() {
+			o.fault = recover()
+			done <- o
+		}()
+		it := s.NewIterator(cmp, s.MakeBuf())
+		it.SetRefreshInterval(1)
+		it.SeekFirst()
+		o.seq = append(o.seq, skiplist.IntFromItem(it.Get()))
+		atomic.StoreInt32(&armed, 1)
+		for it.Next(); it.Valid(); it.Next() {
+			o.seq = append(o.seq, skiplist.IntFromItem(it.Get()))
+			if len(o.seq) > 20 {
+				break
+			}
+		}
+		it.Close()
+	}()
+	reached := false
+	select {
+	case <-parked:
+		reached = true
+		ok, _ := slDeleteMM(s, e.intItem(20), buf) // delete + flush the node the iterator is re-seeking
+		atomic.StoreInt32(&armed, 0)
+		if !ok {
+			c.Inconclusive("delete of the current item failed")
+		}
+		close(resume)
+	case o := <-done:
+		done <- o
+	}
+	o := <-done
+	c.Evals(1)
+	c.Sig("directed-refresh/mem=%s/reached=%v", mem, reached)
+	witness := map[string]interface{}{"mem": mem, "sequence": o.seq, "window_reached": reached}
+	if !reached {
+		c.Inconclusive("the comparator window inside Refresh was never reached")
+		return
+	}
+	if o.fault != nil {
+		c.Violate("refresh-touched-released-memory", fmt.Sprintf("iterator with refresh interval 1: its current item was deleted and flushed while Refresh was re-seeking it; afterwards the iterator touched released memory: %v (items so far %v)", o.fault, o.seq), witness)
+		return
+	}
+	for _, v := range e.a.Violations() {
+		c.Violate("alloc-"+v.Kind, fmt.Sprintf("%+v", v), witness)
+	}
+	// never backwards; only values that were in the list; the stable items 30,40,50 each exactly once
+	seen := map[int]int{}
+	for i, v := range o.seq {
+		seen[v]++
+		if i > 0 && v <= o.seq[i-1] {
+			c.Violate("went-backwards", fmt.Sprintf("sequence %v", o.seq), witness)
+		}
+		if v%10 != 0 || v < 10 || v > 50 {
+			c.Violate("phantom", fmt.Sprintf("iterator returned %d, which was never in the list (sequence %v)", v, o.seq), witness)
+		}
+	}
+	for _, v := range []int{10, 30, 40, 50} {
+		if seen[v] != 1 {
+			c.Violate("missed-item", fmt.Sprintf("stable item %d returned %d times (sequence %v)", v, seen[v], o.seq), witness)
+		}
+	}
+	c.Sample(map[string]interface{}{"directed": "refresh re-seek parked in the comparator while its item is deleted and flushed", "mem": mem, "sequence": o.seq})
 }
